@@ -32,9 +32,12 @@ import (
 // discards it.
 func Log() logging.Logger { return logging.New(io.Discard, logrus.TraceLevel) }
 
-// StateStore is an in-memory leveldb state store (the mock one deadlocks on
-// delete-inside-iterate).
-func StateStore() storage.StateStorer {
+// StateStore is the state store given to services: the map-backed MemState. (The repo's
+// mock state store deadlocks on delete-inside-iterate; LevelStateStore is the real one.)
+func StateStore() storage.StateStorer { return NewMemState() }
+
+// LevelStateStore is a real in-memory leveldb state store.
+func LevelStateStore() storage.StateStorer {
 	s, err := statestore.NewInMemoryStateStore(Log())
 	if err != nil {
 		panic("pbench: state store: " + err.Error())
@@ -56,14 +59,32 @@ type Store struct {
 	mu     sync.Mutex
 	chunks map[string][]byte
 	puts   []PutRec
+	parent *Store // read-only fallback (shared, immutable content)
 }
 
 func NewStore() *Store { return &Store{chunks: map[string][]byte{}} }
 
+// NewStoreOver returns an empty store that reads through to parent (which must not be
+// written any more): a cheap way to give every case a node that already holds a file.
+func NewStoreOver(parent *Store) *Store { return &Store{chunks: map[string][]byte{}, parent: parent} }
+
+func (s *Store) lookup(k string) ([]byte, bool) {
+	if d, ok := s.chunks[k]; ok {
+		return d, true
+	}
+	if s.parent != nil {
+		s.parent.mu.Lock()
+		d, ok := s.parent.chunks[k]
+		s.parent.mu.Unlock()
+		return d, ok
+	}
+	return nil, false
+}
+
 func (s *Store) Get(_ context.Context, _ storage.ModeGet, addr boson.Address) (boson.Chunk, error) {
 	s.mu.Lock()
 	defer s.mu.Unlock()
-	d, ok := s.chunks[addr.ByteString()]
+	d, ok := s.lookup(addr.ByteString())
 	if !ok {
 		return nil, storage.ErrNotFound
 	}
@@ -76,7 +97,7 @@ func (s *Store) Put(_ context.Context, mode storage.ModePut, chs ...boson.Chunk)
 	ex := make([]bool, len(chs))
 	for i, c := range chs {
 		k := c.Address().ByteString()
-		_, ex[i] = s.chunks[k]
+		_, ex[i] = s.lookup(k)
 		d := append([]byte(nil), c.Data()...)
 		s.puts = append(s.puts, PutRec{Mode: mode, Addr: append([]byte(nil), c.Address().Bytes()...), Data: d})
 		if !ex[i] {
@@ -101,7 +122,7 @@ func (s *Store) GetMulti(ctx context.Context, m storage.ModeGet, addrs ...boson.
 func (s *Store) Has(_ context.Context, _ storage.ModeHas, addr boson.Address) (bool, error) {
 	s.mu.Lock()
 	defer s.mu.Unlock()
-	_, ok := s.chunks[addr.ByteString()]
+	_, ok := s.lookup(addr.ByteString())
 	return ok, nil
 }
 
@@ -123,10 +144,11 @@ func (s *Store) Puts() []PutRec {
 	return append([]PutRec(nil), s.puts...)
 }
 
-// Seed stores a chunk without recording it.
+// Seed stores a chunk without recording it (data is kept by reference: callers do not
+// modify it afterwards; Get hands out copies).
 func (s *Store) Seed(addr, data []byte) {
 	s.mu.Lock()
-	s.chunks[string(addr)] = append([]byte(nil), data...)
+	s.chunks[string(addr)] = data
 	s.mu.Unlock()
 }
 
